@@ -1358,6 +1358,7 @@ type c07LargeData struct {
 	r       *vkit.Rand
 	centers [][]float32
 	pool    [][]float32
+	scale   bool
 }
 
 func c07NewLargeData(r *vkit.Rand, kind string, dim, n int) *c07LargeData {
@@ -1383,7 +1384,23 @@ func c07NewLargeData(r *vkit.Rand, kind string, dim, n int) *c07LargeData {
 	return d
 }
 
+// vec returns the next vector. For cosine/float32 batches (scale set) its length is then
+// stretched by a factor in [0.2, 5] derived from the vector itself (no PRNG draw, so the
+// directions - and with them the graph a correct index builds and the calibrated floors -
+// are exactly those of the unscaled data): cosine search must not care about lengths.
 func (d *c07LargeData) vec() []float32 {
+	v := d.rawVec()
+	if d.scale && len(v) > 0 {
+		h := math.Float32bits(v[0])*2654435761 + math.Float32bits(v[len(v)-1])
+		f := float32(0.2 + 4.8*float64(h%1000)/1000)
+		for j := range v {
+			v[j] *= f
+		}
+	}
+	return v
+}
+
+func (d *c07LargeData) rawVec() []float32 {
 	r := d.r
 	v := make([]float32, d.dim)
 	switch d.kind {
@@ -1546,6 +1563,7 @@ func c07LargeCase(ctx *vkit.Ctx, cs *vkit.Case, b c07Batch, round int) {
 	r := cs.R
 	n := b.n
 	data := c07NewLargeData(r, b.data, b.dim, n)
+	data.scale = b.metric == distance.Cosine && b.prec == distance.Float32
 	x := &c07Index{cs: cs, ctx: ctx, dir: cs.SubDir("data"), name: "ix", M: b.M, efC: b.efC,
 		metric: b.metric, prec: b.prec, dim: b.dim, live: map[string][]float32{}}
 	x.open()
